@@ -805,4 +805,128 @@ example : untarInto [{ name := "../._x".toList, content := "1", kind := .reg }] 
 example : NoApple [("a/x".toList, "1")] := by
   intro kv h; simp at h; subst h; decide
 
+/-! ### Names do not matter; an atomic put in flight (strengthening S4C)
+
+  Every theorem above quantifies over ALL keys (`AllProper k`: components that are non-empty,
+  slash-free and not "." / ".."), so a base name such as `.tmpl.proto`, `.tmp`, `x~`, `CON`, `..x`
+  is covered like any other — the model's walk never inspects a name.  The two statements below
+  make that explicit for the disk tree, and describe the one moment at which the directory holds a
+  file nobody put: the temp file of an atomic put whose writer is still open. -/
+
+open BufModel.Disk in
+/-- Whatever its base name `n` looks like (any proper component — `.tmp`, `.tmpl.proto`, `x~`,
+    `..x`, …), an object put on the disk tree where no ancestor is a file and the name is not a
+    directory is found by `Get` and listed by `Walk ""` with its content. -/
+theorem disk_put_then_walk_lists_any_name (d : Disk) (dirK : Key) (n : Comp) (c : Content)
+    (hk : AllProper (dirK ++ [n]))
+    (hanc : (ancestors (dirK ++ [n])).any (isFile d) = false) (hnd : isDir d (dirK ++ [n]) = false) :
+    ∃ d', diskPut d (renderKey (dirK ++ [n])) c = .ok d' ∧
+      diskGet d' (renderKey (dirK ++ [n])) = .ok c ∧
+      ∃ l, diskWalk d' [] = .ok l ∧ (renderKey (dirK ++ [n]), c) ∈ l := by
+  have hne : dirK ++ [n] ≠ [] := by simp
+  have hv := validatePath_renderKey hk hne
+  have hkey : keyOfPath (renderKey (dirK ++ [n])) = dirK ++ [n] := cleanComps_renderKey hk
+  refine ⟨_, by simp only [diskPut, hv, hkey, hanc, hnd]; rfl, ?_, ?_⟩
+  · simp only [diskGet, memGet, hv, find_cons_eq]
+  · have huf : underFile ((renderKey (dirK ++ [n]), c) :: d.files.erase (renderKey (dirK ++ [n]))) [] = false := by
+      unfold underFile validatePrefix
+      have : normalizeAndValidate [] = .ok dot := by decide
+      rw [this]
+      have : keyOfPath dot = [] := by decide
+      simp only [this]
+      rfl
+    simp only [diskWalk, huf, Bool.false_eq_true, if_false]
+    have hw : validatePrefix [] = .ok dot := by decide
+    simp only [memWalk, hw]
+    refine ⟨_, rfl, ?_⟩
+    apply List.mem_filter.mpr
+    refine ⟨List.mem_cons_self, ?_⟩
+    simp [equalsOrContainsPath]
+
+open BufModel.Disk in
+/-- As coded: opening an atomic put on the disk tree (temp file `t` next to the final path, which
+    `os.CreateTemp` guarantees to be a fresh name) IS a put of one more object at the temp path —
+    so while the writer is open `Walk` lists the temp file and `Get` serves it exactly as the
+    memory-bucket theory says for any object (the tree is still one path→bytes map; it just has an
+    object nobody asked for).  The property is silent about whether the temp file should be
+    visible; the harness oracle only demands that Walk and Get agree about it. -/
+theorem inflight_begin_is_put_of_temp (d : Disk) (k : Key) (t : Comp) (c : Content)
+    (hk : AllProper k) (hne : k ≠ []) (ht : Proper t)
+    (hanc : (ancestors k).any (isFile d) = false) :
+    ∃ d', diskBeginAtomic d (renderKey k) (some t) c = .ok d' ∧
+      memPut d.files (renderKey (k.dropLast ++ [t])) c = .ok d'.files := by
+  have hv := validatePath_renderKey hk hne
+  have hkey : keyOfPath (renderKey k) = k := cleanComps_renderKey hk
+  have hk2 : AllProper (k.dropLast ++ [t]) := by
+    intro x hx
+    rcases List.mem_append.mp hx with h | h
+    · exact hk x (List.dropLast_subset k h)
+    · simp at h; subst h; exact ht
+  have hv2 := validatePath_renderKey hk2 (by simp)
+  refine ⟨_, by simp only [diskBeginAtomic, hv, hkey, hanc]; rfl, ?_⟩
+  simp only [memPut, hv2, tempPath, hkey]
+
+open BufModel.Disk in
+/-- Closing the writer publishes: when the final path is not a directory, and the temp name was
+    fresh when the put began (`O_EXCL`), then after begin + close
+    the tree holds, for EVERY path, exactly what a plain put would have left: the new content at
+    the final path, nothing at the temp path, everything else untouched. -/
+theorem inflight_close_equals_put (d : Disk) (k : Key) (t : Comp) (c : Content)
+    (hk : AllProper k) (hne : k ≠ []) (ht : Proper t)
+    (hanc : (ancestors k).any (isFile d) = false) (hnd : isDir d k = false)
+    (hfresh : d.files.find (renderKey (k.dropLast ++ [t])) = none) :
+    ∃ d1 d2 m, diskBeginAtomic d (renderKey k) (some t) c = .ok d1 ∧
+      diskCommitAtomic d1 (renderKey k) (some t) c = (d2, none) ∧
+      memPut d.files (renderKey k) c = .ok m ∧ ∀ q, d2.files.find q = m.find q := by
+  have hv := validatePath_renderKey hk hne
+  have hkey : keyOfPath (renderKey k) = k := cleanComps_renderKey hk
+  obtain ⟨d1, hb, _⟩ := inflight_begin_is_put_of_temp d k t c hk hne ht hanc
+  have hd1 : d1 = { files := (tempPath (renderKey k) t, c) :: d.files.erase (tempPath (renderKey k) t),
+                    dirs := addDirs d.dirs (ancestors k) } := by
+    simp only [diskBeginAtomic, hv, hkey, hanc] at hb
+    exact (Except.ok.inj hb).symm
+  have hnd1 : isDir d1 k = false := by
+    rw [hd1]
+    unfold isDir
+    cases hc : (addDirs d.dirs (ancestors k)).contains k with
+    | false => rfl
+    | true =>
+      have hmem : k ∈ addDirs d.dirs (ancestors k) := by simpa using hc
+      rcases mem_addDirs hmem with h | h
+      · unfold isDir at hnd
+        have : d.dirs.contains k = true := by simpa using h
+        rw [this] at hnd; cases hnd
+      · exact absurd rfl (mem_ancestors h).2.1
+  have htp : tempPath (renderKey k) t = renderKey (k.dropLast ++ [t]) := by simp only [tempPath, hkey]
+  rw [htp] at hd1
+  refine ⟨d1, { d1 with files := (renderKey k, c) :: ((d1.files.erase (renderKey (k.dropLast ++ [t]))).erase (renderKey k)) },
+    (renderKey k, c) :: d.files.erase (renderKey k), hb, ?_, ?_, ?_⟩
+  · simp only [diskCommitAtomic, hv, hkey, hnd1, htp]; rfl
+  · simp only [memPut, hv]
+  intro q
+  have herase : Mem.erase ((renderKey (k.dropLast ++ [t]), c) :: d.files.erase (renderKey (k.dropLast ++ [t])))
+      (renderKey (k.dropLast ++ [t])) = (d.files.erase (renderKey (k.dropLast ++ [t]))).erase (renderKey (k.dropLast ++ [t])) := by
+    simp [Mem.erase]
+  rw [hd1]
+  simp only [herase]
+  by_cases hq : renderKey k = q
+  · subst hq
+    rw [find_cons_eq, find_cons_eq]
+  · rw [find_cons_ne _ _ _ _ hq, find_cons_ne _ _ _ _ hq, find_erase_ne _ _ _ hq, find_erase_ne _ _ _ hq]
+    by_cases hq2 : renderKey (k.dropLast ++ [t]) = q
+    · subst hq2
+      rw [find_erase_eq, hfresh]
+    · rw [find_erase_ne _ _ _ hq2, find_erase_ne _ _ _ hq2]
+
+-- non-vacuity: a real object named like the implementation's temp files, and an in-flight put
+open BufModel.Disk in
+example : (diskPut BufModel.Disk.empty "a/.tmpl.proto".toList "1").map (fun d => diskWalk d "a".toList) =
+    .ok (.ok [("a/.tmpl.proto".toList, "1")]) := by decide
+open BufModel.Disk in
+example : (diskBeginAtomic { files := [("a/x".toList, "OLD")], dirs := [["a".toList]] } "a/x".toList (some ".tmpx123".toList) "NEW").map
+      (fun d => diskWalk d "".toList) = .ok (.ok [("a/.tmpx123".toList, "NEW"), ("a/x".toList, "OLD")]) := by decide
+open BufModel.Disk in
+example : (diskCommitAtomic { files := [("a/.tmpx123".toList, "NEW"), ("a/x".toList, "OLD")], dirs := [["a".toList]] }
+      "a/x".toList (some ".tmpx123".toList) "NEW").1.files = [("a/x".toList, "NEW")] := by decide
+
 end BufProofs.C14
